@@ -240,6 +240,15 @@ def replay(pid, cfg, path, workdir):
     if "program" not in d:
         print(json.dumps(d, indent=1))
         return 0
+    if isinstance(d.get("program"), str) and d["program"].lstrip().startswith("cd /verif"):
+        # a finding of a stand-alone test on the crate (harness/late, harness/typed, Miri litmus): the replay is the command
+        print("replaying:", d["program"])
+        cmdline = d["program"].split("   (")[0]
+        pr = subprocess.run(cmdline, shell=True, stdout=subprocess.PIPE, stderr=subprocess.STDOUT, timeout=2400)
+        out = pr.stdout.decode(errors="replace")
+        print(out[-3000:])
+        bad = pr.returncode != 0 or "D3-REPRODUCED" in out or "FAIL" in out.split("\n")[-3:].__str__()
+        return 1 if bad else 0
     buildlib.harness_build("conc")
     buildlib.ocaml_build()
     base = os.path.join(workdir, "replay")
